@@ -157,6 +157,11 @@ func (e *Engine) harnessPrim(fn *ssa.Function, name string, args []Value) (Value
 		return nil, true
 	case "vpSymbolic":
 		return tTrue, true
+	case "vpBoundedRecursion":
+		// from here on, exceeding the call-depth bound is a finding (the
+		// input is finite, so unbounded recursion is non-termination)
+		e.depthIsFinding = true
+		return nil, true
 	case "vpAssert":
 		c := args[0].(*Term)
 		label := e.mustStr(args[1], "vpAssert label")
@@ -199,6 +204,20 @@ func (e *Engine) harnessPrim(fn *ssa.Function, name string, args []Value) (Value
 		}
 		e.assertPC(c)
 		return nil, true
+	case "vpStrConst":
+		// one of the string constants that occur in the named functions of the
+		// package under test (read from the current SSA): a dictionary that
+		// follows the code, so inputs can contain the code's own magic strings
+		words := e.sh.strConsts(e.mustStr(args[0], "vpStrConst"))
+		if len(words) == 0 {
+			unsupported("vpStrConst: no string constants found")
+		}
+		it := e.fresh("dict", false)
+		e.newDomain(it.s, 0, int64(len(words)-1))
+		e.assertPC(tAnd(tCmp("<=", mkInt(0), it), tCmp("<=", it, mkInt(int64(len(words)-1)))))
+		w := mkStr(words[e.concretize(it, 0, len(words)-1)])
+		e.recordPrim("s", w.bytes...)
+		return w, true
 	case "vpReMatch":
 		return e.reMatchUnanchored(e.mustStr(args[0], "vpReMatch"), args[1].(StrVal)), true
 	}
